@@ -24,3 +24,7 @@ CHECKS["C05"] = ("exploration", "exhaustive enumeration of expression trees (<= 
    "Everything the operator-precedence loop can distinguish is enumerated completely: all 1884 infix sequences of length <= 3 x all tree shapes x full and minimal bracketing x 3 bracket styles x 3 leaf tuples; every prefix operator in every grammatical position; depth-6 spines for all operator pairs; every literal spelling x boundary values; 8/9, /0 and negative-shift rejection; each under six leaf regimes (constants, symbols before/after, address-valued with the base settled first/last/defaulted, symbols assigned address expressions before their labels exist). Values are read back through .dword or 16-bit slices. 'All trees to depth 6' is unbounded; the bound actually completed is stated in the evidence.",
    "Trusted: pdpmc/ref/expr.py (documented semantics, vectors in selftest). Trees whose reference value exceeds 2**8192 (or would after an error substitute) are not generated (resource guard, see DESIGN).",
    "DESIGN.md 5/C05")
+CHECKS["C06"] = ("exploration", "exhaustive enumeration of boundary values x positions x parities, characters x charsets x quotes, escapes, counts and alignment residues on the real assembler",
+   "Complete product: 9 boundary values in every position of lists of 1-8 operands (all pairs for length 2) for .byte/.word/implicit lists/.dword at both address parities, spelled as constants and as later-defined symbols; every character of bk/koi8-r/latin-1/cp866 (and the utf-8 BMP: sampled in quick, complete in thorough) under each quote, every escape incl. all 256 \\xHH, <n> for -1..256, all short mixed strings; .blkb/.blkw counts; .even/.odd at both parities; .align for every modulus 1-64 at every residue and two bases. Accept/reject boundaries are bracketed completely; refused inputs must fail with an error.",
+   "Trusted: Python codecs as charset definitions (ASCII/KOI8-R for bk). Content of operand-less directives is not demanded.",
+   "DESIGN.md 5/C06")
